@@ -1,7 +1,7 @@
 """C16 -- the encoder respects any level table it claims to satisfy.
 
 Spec: spec/LevelTables.tla (TLC choice machine with three classes of level definitions:
-  "full"  tiny configuration x one or two restricted keys x restriction kind x ordering pattern;
+  "full"  tiny configuration x one or two restricted keys x restriction kind (incl. the EMPTY entry) x ordering pattern;
   "geom"  geometry configurations (frame / field DC-band heights dividing differently by slices_y) x picture coding
           mode x source sampling (agreeing and disagreeing) x a synthetic column pinning one derived key;
   "real"  the REAL level table x one feature set per level x every base video format x source sampling x picture
